@@ -13,7 +13,7 @@ ASSUME = ["the reference decoder lib/ref/dnswire_srv.py is correct (written from
           "CALIBRATED: a request carrying OPT gets an automatic OPT record (class 512) as first additional record; replies over 65507 bytes cannot be sent over UDP/IPv4"]
 
 REG = dict(category="exploration",
-           text="Runtime monitor of the real evdns server port over loopback UDP/TCP sockets: ~1.4e3 (quick) / ~8.5e4 (thorough) generated "
+           text="Runtime monitor of the real evdns server port over loopback UDP/TCP sockets: ~1.4e3 (quick) / ~9.2e4 (thorough) generated "
                 "request+record-set cases; every reply byte is decoded by an independent strict DNS decoder (pointer targets must be label starts of "
                 "earlier names with the intended suffix) and compared with the questions and exactly the records the callback added, in order; "
                 "size-limit/TC/count honesty judged against the uncompressed size; ASan+UBSan+LSan live, allocation census per case. "
